@@ -114,6 +114,11 @@ CHECKS["C10"] = dict(level="model_checking", design="DESIGN.md §6 C10, §3.1 Sp
          "TLC requires identical message sets on repetition, errors(stop) subset of errors(continue), validity = no error, returned warnings = attached warnings, and phase traces that are runs of the machine.",
     note="Documents with several simultaneous offenders are generated on purpose. Messages compared by text. Serialisation variants (YAML, member order) are exercised only through the fixtures that are YAML.")
 
+CHECKS["C02"] = dict(level="model_checking", design="DESIGN.md §6 C02",
+    technique="TLA+ operator JsonSchema!Valid evaluated by TLC with the complete official Swagger 2.0 schema (as a tagged constant bundled at run time) on the raw text of every document the real spec validator accepted (trace validation over an edit universe)",
+    text="Accepted => schema-valid: each run of the spec validator on an edited document is recorded with the tagged raw document; TLC evaluates the ~75-definition Swagger schema with the same independent draft-4 operator as C01.",
+    note="Only the stated direction is checked. Known: a null under anyOf/oneOf/not positions is accepted (C01's NullEarlyExit), listed as an open finding with a witness document.")
+
 NOT_YET = {}
 
 
